@@ -246,6 +246,7 @@ fn run_case_inner(mode: &str, seed: u64, keep_log: bool) -> (CaseResult, Vec<Str
             "store" => store::run(seed, sched, keep_log).await,
             "fetch" => fetch::run(seed, sched, keep_log).await,
             "addrs" => addrs::run(seed, sched, keep_log).await,
+            "addrs-node" => addrs::run_with(seed, sched, keep_log, true).await,
             "pool" => pool::run(seed, sched, keep_log).await,
             m => panic!("unknown prim mode {m}"),
         }
